@@ -39,8 +39,8 @@ type batchCase struct {
 	// result is listed first) | own-ctx-sibling-retried (the last call, alone on the
 	// second server, has its own context cancelled while unanswered; a call on the
 	// first server is answered retry-later and then succeeds)
-	Trigger   string
-	Deadline  time.Duration
+	Trigger  string
+	Deadline time.Duration
 }
 
 func (b batchCase) String() string {
@@ -98,7 +98,7 @@ func genBatchCase(r *rand.Rand, maxCalls int) batchCase {
 		}
 		b.Calls = append(b.Calls, c)
 	}
-	switch r.Intn(14) {
+	switch r.Intn(15) {
 	case 0:
 		b.Invalid = "mixed-tables"
 	case 1:
@@ -141,6 +141,16 @@ func genBatchCase(r *rand.Rand, maxCalls int) batchCase {
 			}
 		}
 		b.Calls = append(b.Calls, batchCall{Kind: "get", Row: "x1"})
+	case 10:
+		b.Trigger = "own-ctx-while-locating"
+		b.Servers, b.Bounds = 1+r.Intn(2), []string{"m"}
+		for i := range b.Calls {
+			b.Calls[i].Script = nil
+			if b.Calls[i].Row >= "m" {
+				b.Calls[i].Row = "c" + b.Calls[i].Row
+			}
+		}
+		b.Calls = append(b.Calls, batchCall{Kind: "put", Row: "x1"})
 	}
 	if b.Invalid != "" {
 		b.InvalidAt = r.Intn(len(b.Calls) + 1)
@@ -276,6 +286,16 @@ func runBatchCase(b batchCase, tag string) *batchRun {
 		}
 		mu.Unlock()
 		if !relevant {
+			if b.Trigger == "own-ctx-while-locating" && req.Scan != nil && req.Scan.Scan != nil &&
+				strings.Contains(string(req.Scan.Scan.StartRow), ",x1,") {
+				// the meta lookup for the last call's key
+				fired := false
+				ownOnce.Do(func() { fired = true })
+				if fired {
+					go func() { time.Sleep(3 * time.Millisecond); cancelOwnCtx() }()
+					return &sim.Reply{HoldDefault: hold}
+				}
+			}
 			return nil
 		}
 		if ownOp != "" {
